@@ -68,6 +68,13 @@ func runInstance(ld *Loaded, sol *Solver, inst Instance, opt runOpts) (res InstR
 		entry = func(ex *Exec) { runKernel(ex, kfn) }
 	} else {
 		fn := ld.tensor.Func(inst.Harness)
+		if strings.HasPrefix(inst.Harness, "native.") {
+			// harnesses of package native (overlay files native__*.go)
+			fn = nil
+			if np := ld.pkgs["gorgonia.org/tensor/native"]; np != nil {
+				fn = np.Func(strings.TrimPrefix(inst.Harness, "native."))
+			}
+		}
 		if fn == nil {
 			res.Err = "harness not found: " + inst.Harness
 			return
